@@ -8,7 +8,8 @@ forest (its items; encoding of DriverKernel); table: the RECORDED requests of th
 with outcome `ok <handle>` or `err <Kind>`.  The object world of the translated function is this table: every request parameter builds its
 signature, the next recorded request must have the same one (else `err oracle:…`), and answers with the recorded outcome.  Signatures:
 `D <name> <length|->`, `S <handles|-> <name>`, `C <handles|-> <name>`, `M <handles|-> <name>`, `R <handles> <handles> <rtype>`, `q <handle> <value>`
-(`.sequence = value`), `k <handle> <units|->` (`.rate_constant = (rate, units)`; the float is validated by the `read_reaction` stream) - names and
+(`.sequence = value`), `k <handle> <units|->` (`.rate_constant = (rate, units)`; the float is validated by the `read_reaction` stream), `s <handle>` (`list(x.sequence)` of a strand: outcome `okl a,b,…`),
+`X <items> <chars> <name>` (`Complex(sequence, list(structure), name = n)`: items handles or `p` for '+', chars a list of one-character strs) - names and
 values as token trees, handle lists `,` separated (`e` = the empty list).
 Answer: `ok obj <handle>` | `ok raw` (the statement handed back) | `err <Kind>`, followed by ` unused` when recorded requests were not consumed.
 -/
@@ -19,9 +20,9 @@ namespace Dsd.DriverReadLine
 open Dsd DriverReaderFns
 
 structure W where
-  rest : List (String × Except Err Nat)
+  rest : List (String × Except Err (List Nat))      -- an outcome is a handle (`ok n`), a list of handles (`okl a,b,…`) or an exception
 
-def ask (sig : String) : Py.MS W Nat := do
+def askL (sig : String) : Py.MS W (List Nat) := do
   let w ← get
   match w.rest with
   | [] => throw (.fault ("oracle:exhausted at " ++ sig))
@@ -31,6 +32,10 @@ def ask (sig : String) : Py.MS W Nat := do
     match out with
     | .ok n => pure n
     | .error e => throw e
+
+def ask (sig : String) : Py.MS W Nat := do
+  let l ← askL sig
+  pure (l.headD 0)
 
 def hs (l : List Nat) : String := if l.isEmpty then "e" else ",".intercalate (l.map toString)
 def ohs : Option (List Nat) → String
@@ -47,16 +52,21 @@ def envOf (g : Gen.objectio.Globals) (rtypes : List String) : RL.Env W where
   set_sequence := fun h v => do let _ ← ask ("q " ++ toString h ++ " " ++ encTree v); pure ()
   set_rate_constant := fun h _ u => do
     let _ ← ask ("k " ++ toString h ++ " " ++ (match u with | none => "-" | some t => encTree t)); pure ()
+  strand_sequence := fun h => askL ("s " ++ toString h)
+  ComplexNew := fun seq st n =>
+    ask ("X " ++ (if seq.isEmpty then "e" else ",".intercalate (seq.map (fun o => match o with | none => "p" | some h => toString h))) ++
+      " [" ++ encForest st ++ " ] " ++ encTree n)
   RTYPES := rtypes
   g12 := g12Marker
   strL := strLMarker
 
-def parseOutcome (s : String) : Option (Except Err Nat) :=
-  if s.startsWith "ok " then (s.drop 3).toString.toNat?.map .ok
+def parseOutcome (s : String) : Option (Except Err (List Nat)) :=
+  if s.startsWith "ok " then (s.drop 3).toString.toNat?.map (fun n => .ok [n])
+  else if s.startsWith "okl" then (((s.drop 3).toString.trimAscii.toString.splitOn ",").filter (· ≠ "")).mapM String.toNat? |>.map .ok
   else if s.startsWith "err " then some (.error (.fault (s.drop 4).toString))
   else none
 
-def parseEntry (s : String) : Option (String × Except Err Nat) :=
+def parseEntry (s : String) : Option (String × Except Err (List Nat)) :=
   match s.splitOn "=>" with
   | [sig, out] => (parseOutcome out).map (fun o => (sig, o))
   | _ => none
